@@ -576,5 +576,6 @@ EntriesSeq4 == {SymE(R(<<"a">>), R(<<".">>)),
 EntriesMisc == {Reg(R(<<"a">>)), Reg(R(<<"b", "x">>)), BigReg(R(<<"c">>)), BigReg(R(<<"..", "out-evil", "x">>)),
                 SymE(R(<<"s">>), R(<<"a">>)), SymE(R(<<"s">>), A(<<"b", "x">>)), SymE(R(<<"b">>), R(<<".">>)),
                 HardE(R(<<"d">>), R(<<"b", "x">>)),
-                SymE(R(<<"..", "s">>), A(<<"a">>)), Reg(R(<<"..", "out-evil", "x">>)), Reg(R(<<"..", "x", "y">>))}
+                SymE(R(<<"..", "s">>), A(<<"a">>)), Reg(R(<<"..", "out-evil", "x">>)), Reg(R(<<"..", "x", "y">>)),
+                Reg(R(<<"b", "lx">>))}      \* a 300-byte component: WriteFile / OpenFile fail, the error paths run
 =============================================================================
